@@ -142,12 +142,26 @@ theorem ins_new {sl : List (Slot N)} (hrh : RH sl) (hroom : nOcc sl < sl.length)
   have := putLoop_spec sl.length true (hm sl.length kv.1) hh sl.length 0 (hm sl.length kv.1) kv.1 kv.2 sl rfl hrh hh
     (by omega) (dst_self hh) (fun j _ h => by omega) hz hk
     (fun j _ h => by rw [dst_self hh] at h; omega) (fun p _ _ h => absurd rfl h) hnew
-  obtain ⟨f, sl', hf, hres, hlen', hrh', hnf, hpth, hocc, hhas⟩ := this
+  obtain ⟨f, sl', hf, hres, hlen', hrh', hnf, hpth, hocc, hhas, _⟩ := this
   rw [dst_self hh] at hres
   have e : ins sl kv = sl' := by unfold ins; rw [hres]
   rw [e]
   refine ⟨f, hres, hlen', hrh', ⟨hf, hnf, hpth⟩, hocc, ?_, nOcc_add_one sl sl' f hlen'.symm hf hnf hocc⟩
   intro x; rw [hhas]
+
+/-- … and the stored pairs are the old ones plus the new one -/
+theorem ins_entries {sl : List (Slot N)} (hrh : RH sl) (hroom : nOcc sl < sl.length) {kv : Slot N} (hk : kv.1.isNil = false)
+    (hnew : NewKey sl kv.1) : (entries (ins sl kv)).Perm (kv :: entries sl) := by
+  have hcap : 0 < sl.length := by omega
+  have hh := hm_lt hcap kv.1
+  have hz := nOcc_lt_exists_empty sl hroom
+  have := putLoop_spec sl.length true (hm sl.length kv.1) hh sl.length 0 (hm sl.length kv.1) kv.1 kv.2 sl rfl hrh hh
+    (by omega) (dst_self hh) (fun j _ h => by omega) hz hk
+    (fun j _ h => by rw [dst_self hh] at h; omega) (fun p _ _ h => absurd rfl h) hnew
+  obtain ⟨f, sl', _, hres, _, _, _, _, _, _, hperm⟩ := this
+  rw [dst_self hh] at hres
+  have e : ins sl kv = sl' := by unfold ins; rw [hres]
+  rw [e]; exact hperm
 
 theorem IsFE.congr {sl sl' : List (Slot N)} {h f : Nat} (hlen : sl'.length = sl.length)
     (hocc : ∀ j, Occ sl' j ↔ Occ sl j) (h1 : IsFE sl h f) : IsFE sl' h f := by
